@@ -942,6 +942,30 @@ def crossoff(ctx, report, rule, facts, config, want=("own-stage", "all-occurrenc
                     return False
                 if left_early(it.path.events):
                     allocc.append("an entry can be kept before all ids of the stage were compared with it")
+    # a way through that does no crossing off at all is fine only where the pending list is known to be empty (the guard in front
+    # of the loop is an optimisation, not a condition)
+    ids_of = set(L.id for L in id_loops + dep_loops)
+
+    def crosses(events):
+        for x in events:
+            if x[0] == "loop":
+                if x[1].id in ids_of or any(crosses(it.path.events) for it in x[1].iters):
+                    return True
+        return False
+
+    for e in Q.returns(ends):
+        if crosses(e.path.events):
+            continue
+        empty = False
+        for (ct, cv, cn, cs) in e.path.conds:
+            if Q.is_call(ev, ct, "is_empty") and ct[2] and Q.strip(ev, ct[2][0]) == ("param", 3) and cv == 1:
+                empty = True
+            nc = Q.norm_cmp(ct, cv)
+            if nc is not None and nc[2][0] == "int" and Q.is_call(ev, nc[1], "len") and Q.strip(ev, nc[1][2][0]) == ("param", 3) and \
+                    [n_ for n_ in (0, 1, 2, 3) if Q.holds_for(nc[0], n_, nc[2][1])] == [0]:
+                empty = True
+        if not empty:
+            allocc.append("a way through remove_ids crosses nothing off although the pending list may hold entries: a finished dependency stays pending and forces a needless stage")
     # the ids of the stage are all looked at
     for L in id_loops:
         if L.kind in SEARCH:
